@@ -17,6 +17,14 @@ def package_info():
 def validated_list_inst(listterm, got):
     return validated_list(listterm, got)
 
+def half_pair_or(f, pairs):
+    """the disjunctive spelling of 'exactly one half of a (rate, account) pair is present' (e.g. from `a.is_some() != b.is_some()`)"""
+    if f[0] != 'or' or len(f[1]) != 2: return False
+    for r, a in pairs:
+        want = {frozenset([('is', r, 'None'), ('is', a, 'Some')]), frozenset([('is', r, 'Some'), ('is', a, 'None')])}
+        if set(frozenset(alt) for alt in f[1]) == want: return True
+    return False
+
 def fee_expect(p, side):
     rate = m(side + '_fee_rate'); acct = m(side + '_fee_account')
     rs, as_ = p.variant_of(rate), p.variant_of(acct)
@@ -92,7 +100,8 @@ def run(eng, tier):
     T = [
         ('empty-name', 'L', lambda e: isf(e, ('val', ISEMPTY(m('name')), True))), ('empty-base', 'L', lambda e: isf(e, ('val', ISEMPTY(m('base_denom')), True))),
         ('empty-quotes', 'L', lambda e: isf(e, ('val', ISEMPTY(m('supported_quote_denoms')), True))), ('empty-executors', 'L', lambda e: isf(e, ('val', ISEMPTY(m('executors')), True))),
-        ('half-fee-pair', 'L', lambda e: e['fact'] is not None and e['fact'][0] == 'is' and e['fact'][1] in (m('ask_fee_account'), m('bid_fee_account'), m('ask_fee_rate'), m('bid_fee_rate'))),
+        ('half-fee-pair', 'L', lambda e: e['fact'] is not None and ((e['fact'][0] == 'is' and e['fact'][1] in (m('ask_fee_account'), m('bid_fee_account'), m('ask_fee_rate'), m('bid_fee_rate')))
+            or half_pair_or(e['fact'], [(m('ask_fee_rate'), m('ask_fee_account')), (m('bid_fee_rate'), m('bid_fee_account'))]))),
         ('precision-above-18', 'L', lambda e: isf(e, ('val', LT(I(18), m('price_precision')), True))),
         ('increment-below-1', 'L', lambda e: is_sign(e['fact'], m('size_increment'), 'zero')),
         ('invalid-address', 'L', addr_err),
